@@ -16,6 +16,7 @@ NAMES = ['a', 'b c', 'ü', 'x.txt', '-f', 'q?', '*', 'long' * 10, 'z%41',
 def config(tier):
     return {
         'level': 'exploration',
+        'cold_sample': 3 if tier == 'quick' else 20,
         'cases': 3500 if tier == 'quick' else 70000,
         'budget_s': 45 if tier == 'quick' else 560,
         'floors': {'cases': 250, 'dry_runs': 80, 'negative_replies': 120,
